@@ -45,6 +45,13 @@ TABLE = {
     "am2DCM/ENU": ("free", "fwd"), "am2DCM/NED": ("free", "fwd"), "am2q/ENU": ("general", "inv"), "am2q/NED": ("general", "inv"),
     "am2angles": ("general", "inv"), "acc2q": ("free", "inv"),
 }
+# estimator objects used more than once: a first estimate on other data, then (where the class exposes its reference
+# vectors as attributes) the references re-assigned, then the judged estimate
+REUSE = {"TRIAD/rotmat/NED": ("v1", "v2"), "TRIAD/quaternion/ENU": ("v1", "v2"), "Davenport": ("g_q", "m_q"), "QUEST": ("g_q", "m_q"),
+         "FLAE/eig": ("ref",), "FLAE/symbolic": ("ref",), "OLEQ/NED[fixed point]": ("a_ref", "m_ref"), "FQA": ("m_ref",),
+         "SAAM": (), "FAMC": (), "Tilt/quaternion": (), "AQUA.estimate/am": ()}
+for _n in REUSE:
+    TABLE[_n + "[reused object]"] = TABLE[_n]
 TILT_ONLY = {"Tilt/acc-only", "AQUA.estimate/acc", "acc2q"}
 ROUTES = list(TABLE)
 REGIONS = {"general": 150, "generic": 60, "special:level": 13, "special:inverted": 7, "special:vertical": 12, "special:half-turn": 8, "special:identity": 1}
@@ -167,6 +174,43 @@ def specs(dip_deg, seed, q_true=None, sgn=1.0):
     out["am2q/NED"] = (-G, mN(d), lambda a, m: o.am2q(a, m, frame="NED"))
     out["am2angles"] = (G, mN(d), lambda a, m: o.am2angles(a, m))
     out["acc2q"] = (G, mN(d), lambda a, m: o.acc2q(a))
+    # ---- reused objects: built for another dip, used once on unrelated data, references re-assigned, then used on (a, m)
+    d0 = dip_deg - 35.0 if dip_deg > 0 else dip_deg + 35.0
+    # (the first TRIAD object is built in the other frame: two NED pairs differing only in dip span the same triad)
+    makers = {"TRIAD/rotmat/NED": (lambda dd: F.TRIAD(v2=mN(np.radians(dd)), frame="NED") if dd == dip_deg else F.TRIAD(v2=mE(np.radians(dd)), frame="ENU"),
+                                   lambda f, a, m: f.estimate(a, m)),
+              "TRIAD/quaternion/ENU": (lambda dd: F.TRIAD(v2=mE(np.radians(dd)), frame="ENU") if dd == dip_deg else F.TRIAD(v2=mN(np.radians(dd)), frame="NED"),
+                                       lambda f, a, m: f.estimate(a, m, "quaternion")),
+              "Davenport": (lambda dd: F.Davenport(magnetic_dip=dd), lambda f, a, m: f.estimate(a, m)),
+              "QUEST": (lambda dd: F.QUEST(magnetic_dip=dd), lambda f, a, m: f.estimate(a, m)),
+              "FLAE/eig": (lambda dd: F.FLAE(magnetic_dip=dd), lambda f, a, m: f.estimate(a, m, method="eig")),
+              "FLAE/symbolic": (lambda dd: F.FLAE(magnetic_dip=dd), lambda f, a, m: f.estimate(a, m, method="symbolic")),
+              "OLEQ/NED[fixed point]": (lambda dd: F.OLEQ(magnetic_ref=dd, frame="NED"), None),
+              "FQA": (lambda dd: F.FQA(mag_ref=mN(np.radians(dd))), lambda f, a, m: f.estimate(a, m)),
+              "SAAM": (lambda dd: F.SAAM(), lambda f, a, m: f.estimate(a, m)), "FAMC": (lambda dd: F.FAMC(), lambda f, a, m: f.estimate(a, m)),
+              "Tilt/quaternion": (lambda dd: F.Tilt(), lambda f, a, m: f.estimate(a, m)), "AQUA.estimate/am": (lambda dd: F.AQUA(), lambda f, a, m: f.estimate(a, m))}
+    a0, m0 = np.array([0.3, -0.5, 0.8]) * 9.0, np.array([0.6, 0.1, -0.4]) * 40.0
+
+    def oleq_fp(f, a, m):
+        orig = np.random.random
+        np.random.random = lambda n=None: q_true * sgn + 0.5
+        try:
+            return f.estimate(a, m)
+        finally:
+            np.random.random = orig
+    for nm, attrs in REUSE.items():
+        mk, est = makers[nm]
+        est = est or oleq_fp
+
+        def run(a, m, mk=mk, est=est, attrs=attrs):
+            f = mk(d0 if attrs else dip_deg)
+            est(f, a0.copy(), m0.copy())
+            if attrs:
+                fresh = mk(dip_deg)
+                for at in attrs:
+                    setattr(f, at, np.copy(getattr(fresh, at)))
+            return est(f, a, m)
+        out[nm + "[reused object]"] = out[nm][:2] + (run,)
     return out
 
 
